@@ -188,7 +188,9 @@ def rule_data_offset(ctx, rep):
         L = layout.Layouts(F)
         # data offset expression
         for b in F.body_list:
-            if b.get("name") != "offset_of_data":
+            # role: the helper on the block type that maps a payload pointer to the payload's offset
+            imp = b.get("impl") or {}
+            if not (imp and not imp.get("trait") and F.is_adt(imp["self_ty"], F.inner_path) and "output" in b and F.ts(b["output"]) == "usize" and b.get("inputs") and F.ty(b["inputs"][0])["k"] == "ptr"):
                 continue
             B = cfg.Body(b)
             e = symx.local_expr(F, B, 0, 0)
@@ -306,14 +308,21 @@ def rule_free_type(ctx, rep):
             why = "no Box::from_raw of the handle's pointer found"
             for bj, t2 in B.calls():
                 if atomics.callee_of(t2) in ("<alloc::boxed::Box<T, alloc::alloc::Global>>::from_raw", "<alloc::boxed::Box<T, A>>::from_raw"):
-                    e = symx.expr(F, B, t2["args"][0])
-                    e = symx.strip_casts(e)
-                    if e[0] == "call" and e[2] == "ptr" and e[1] in F.bodies:
+                    from .. import ptrclass
+
+                    N = ptrclass.Norm(F)
+                    raw = symx.expr(F, B, t2["args"][0])
+                    n = N.norm(raw, {})
+                    x = n
+                    while x[0] == "stored":
+                        x = x[1]
+                    retyped = raw[0] == "cast" and raw[1] == "PtrToPtr"
+                    if n[0] == "stored" and x == ("arg", 1) and not retyped:
                         ok = True
-                    elif e[0] == "cast":
-                        why = "the pointer given to Box::from_raw is re-typed first (%s)" % symx.show(e)
+                    elif retyped:
+                        why = "the pointer given to Box::from_raw is re-typed first (%s)" % symx.show(raw)
                     else:
-                        why = "the pointer given to Box::from_raw is %s, not the handle's stored block pointer" % symx.show(e)
+                        why = "the pointer given to Box::from_raw is %s, not the handle's stored block pointer" % ptrclass.show(n)
             if ok:
                 rep.ok("R-FREE-TYPE", ik, cfg=tag)
             else:
